@@ -175,7 +175,7 @@ class Recorder:
             co = getattr(f, '__code__', None)
             if co is not None:
                 self.rule_codes.setdefault(co, n)
-        gens = [c for c in mon.codes_of_module(module) if c.co_flags & 0x20]
+        gens = [c for c in U.generated_codes(module) if c.co_flags & 0x20]
         mon.watch(gens, E.LINE | E.PY_START | E.PY_YIELD | E.PY_RESUME)
         self.gen_codes.extend(gens)
 
